@@ -175,7 +175,10 @@ def program_parts(bt, spec):
     kids = []
     for nm, k, m in zip(spec["names"], spec["kinds"], spec["mult"]):
         cls = [c.Security, c.FixedIncomeSecurity, c.CouponPayingSecurity, c.HedgeSecurity, c.CouponPayingHedgeSecurity][k]
-        kids.append(cls(nm, multiplier=m))
+        if nm in (spec.get("lazy") or []):
+            kids.append(cls(nm, multiplier=m, lazy_add=True))     # joins the tree when it is first traded, not at setup
+        else:
+            kids.append(cls(nm, multiplier=m))
     sched = {"RunDaily": a.RunDaily(), "RunWeekly": a.RunWeekly(), "RunOnce": a.RunOnce(), "RunEveryNPeriods": a.RunEveryNPeriods(2)}[spec["sched"]]
     probe = _Probe()
     s = bt.FixedIncomeStrategy("fi", algos=[sched, a.WeighSpecified(**spec["weights"]), a.SetNotional("notional"), a.Rebalance(), probe], children=kids)
@@ -237,6 +240,10 @@ def run(ctx, bt):
     run_engine_protocol(ctx, bt, ctx.scale(90, 1000), [Monitor(ctx)], FOOT_FIELDS, None, spec_kwargs={"fi_tree": True}, corr_name="step[C17]")
     for _ in range(ctx.scale(80, 1500)):
         spec = gen_program(ctx.rng, winddown=True)
+        if ctx.rng.random() < 0.3:
+            # some securities declared with lazy_add=True (monitor-judged runs only: the model's trees are fixed at setup)
+            spec["lazy"] = [nm for nm in spec["names"] if ctx.rng.random() < 0.6]
+            ctx.count("programs-with-lazily-added-securities")
         ctx.evaluations += 1
         run_program(ctx, bt, spec)
     _run_steps(ctx, bt)
